@@ -820,9 +820,11 @@ class Merger:
         return merge_performed
 
     def _insert_scalar(
-        self, insert_at: YAMLPath, lhs: Any, lhs_proc: Processor, rhs: Any
+        self, insert_at: YAMLPath, node_coord: NodeCoords,
+        lhs_proc: Processor, rhs: Any
     ) -> bool:
         """Insert an RHS scalar into the LHS document."""
+        lhs = node_coord.node
         merge_performed = False
         if isinstance(lhs, CommentedSeq):
             self.logger.debug(
@@ -856,7 +858,11 @@ class Merger:
             self.data = rhs
             merge_performed = True
         else:
-            lhs_proc.set_value(insert_at, rhs)
+            # Change this target node, only.  Setting the value of insert_at
+            # would evaluate the path anew and overwrite every node it
+            # matches, Arrays and Sets which already received rhs included.
+            # pylint: disable=protected-access
+            lhs_proc._apply_change(insert_at, node_coord, rhs)
             merge_performed = True
         return merge_performed
 
@@ -948,7 +954,7 @@ class Merger:
             else:
                 # The RHS document root is a Scalar value
                 merge_performed = self._insert_scalar(
-                    insert_at, target_node, lhs_proc, rhs)
+                    insert_at, node_coord, lhs_proc, rhs)
 
         self.logger.debug(
             "Completed merge operation, resulting in document:",
